@@ -184,9 +184,11 @@ def r3(ctx, cfg):
         ok = ret[0] == "agg" and is_param(dict(ret[2]).get("block_info", ("unknown", "")), "block_info")
         ctx.ob(R, key, "RouterQuerier.block_info=argument", ok, "RouterQuerier::new builds %s" % fmt(ret)[:120], fn=f,
                sample="block_info: block_info")
-    # get_env
+    # get_env: a private constructor-like helper; what matters - the Env every contract call receives carries this call's
+    # block and address - is decided where the Env is used (C05.R4 `action(handler, deps, env)`, which looks through the
+    # helper), so the helper itself is optional: checked when it exists, nothing is lost when it was inlined by hand
     key = W + "get_env"
-    f = ctx.need_fn(R, key)
+    f = F.fn(key)
     if f is not None:
         envs = [(b, i, st) for b, i, st in f.stmts()
                 if st["k"] == "assign" and st["rv"].get("k") == "aggregate" and st["rv"].get("adt") == "cosmwasm_std::Env"]
